@@ -24,4 +24,8 @@ type Action struct {
 type Actions struct {
 	Actions []Action
 	Pos     gotoken.Pos
+
+	// NonGreedy is true if the rule these actions belong to has a non-greedy
+	// repetition.
+	NonGreedy bool
 }
